@@ -23,6 +23,9 @@ KINDS = {
     'nand': ('nand', ['raw-0', 'raw-hdr', 'ctr-0', 'twl-0'], {'.ess': ['open']}),
     'diff': ('diff', [], {'.p0': ['lv4']}),
     'disa': ('disa', [], {'.p0': ['lv4'], '.p1': ['lv4']}),
+    # level 4 stored outside the DPFS tree: the level-4 file is a window on the partition window, not on the level-3 file
+    'diff-ext': ('diff-ext', [], {'.p0': ['lv4']}),
+    'disa-ext': ('disa-ext', [], {'.p0': ['lv4'], '.p1': ['lv4']}),
 }
 DIR_KINDS = ('cdn', 'sdtitle')
 _FIX = {}
@@ -55,6 +58,10 @@ def fixture(key):
             _FIX[key] = cf.diff_bytes()
         elif key == 'disa':
             _FIX[key] = cf.disa_bytes()
+        elif key == 'diff-ext':
+            _FIX[key] = cf.diff_bytes(external=True)
+        elif key == 'disa-ext':
+            _FIX[key] = cf.disa_bytes(external=True)
     return _FIX[key]
 
 
@@ -137,7 +144,8 @@ class RealWorld:
                 arg = io.BytesIO(data)
                 self.objs[src] = arg
             cls = {'romfs': RomFSReader, 'exefs': ExeFSReader, 'ncch-plain': NCCHReader, 'ncch-split': NCCHReader,
-                   'ncch-simple': NCCHReader, 'cia': CIAReader, 'cci': CCIReader, 'nand': NAND, 'diff': DIFF, 'disa': DISA}[kind]
+                   'ncch-simple': NCCHReader, 'cia': CIAReader, 'cci': CCIReader, 'nand': NAND, 'diff': DIFF, 'disa': DISA,
+                   'diff-ext': DIFF, 'disa-ext': DISA}[kind]
             r = cls(arg, **extra, **kw)
             if src in ('path', 'fs'):
                 self.objs[name + '.file'] = r._file
@@ -154,7 +162,7 @@ class RealWorld:
         if kind == 'nand':
             self.objs[name + '.ess'] = r.essential
             self.kinds[name + '.ess'] = 'exefs'
-        if kind in ('diff', 'disa'):
+        if kind in ('diff', 'disa', 'diff-ext', 'disa-ext'):
             for i, p in r.partitions.items():
                 self.objs[f'{name}.p{i}'] = p
                 self.kinds[f'{name}.p{i}'] = 'partition'
@@ -278,9 +286,10 @@ def gen_script(rng, kind, src, cfd, sites, tail):
 class C16(Check):
     prop = 'C16'
     rule = ('exhaustive: reader type (RomFS, ExeFS, NCCH plain / two-key / one-key, CIA, CCI, CDN, SDTitle, NAND, DIFF, DISA) x source '
-            '(caller file object, path, filesystem + path) x closefd (default, True, False) x every handle kind incl. nested '
+            '(external level 4 too) x (caller file object, path, filesystem + path) x closefd (default, True, False) x every handle kind incl. nested '
             'readers\' handles and the in-memory .code-decompressed x orders {reader close then tell then read; reader close then '
-            'read; handle close then sibling use then reader use; double closes; nested reader close}; random longer interleavings '
+            'read; every handle read twice (caches warm) then reader close then read; handle close then sibling use then reader use; '
+            'double closes; nested reader close}; random longer interleavings '
             'on top; observables: ValueError or not per call, closed flag of the file; non-trivial = always')
     trusted_base = [
         'Lean 4.33 kernel; axioms propext, Classical.choice, Quot.sound only',
@@ -313,6 +322,8 @@ class C16(Check):
                     yield {'kind': kind, 'src': src, 'cfd': cfd, 'sites': sites, 'tail': 'reader-read-tell', 'q': q}
                     yield {'kind': kind, 'src': src, 'cfd': cfd, 'sites': sites + sites, 'tail': 'handles-first', 'q': q}
                     yield {'kind': kind, 'src': src, 'cfd': cfd, 'sites': sites, 'tail': 'double', 'q': q}
+                    # every handle used (data read twice: whatever it caches is warm) BEFORE the reader is closed
+                    yield {'kind': kind, 'src': src, 'cfd': cfd, 'sites': sites, 'tail': 'warm-reader-read-tell', 'q': q}
                     for suffix in KINDS[kind][2]:
                         yield {'kind': kind, 'src': src, 'cfd': cfd, 'sites': sites, 'tail': 'nested:' + suffix, 'q': q}
 
@@ -355,6 +366,9 @@ class C16(Check):
             if t == 'reader-tell-read':
                 return q + [['close', 'r']] + q + [x for n in names for x in (['io', n, 'tell'], ['io', n, 'read'])] + [['close', 'r']] + \
                     [['close', n] for n in names] + q
+            if t == 'warm-reader-read-tell':
+                return [x for n in names for x in (['io', n, 'read'], ['io', n, 'read'])] + [['close', 'r']] + \
+                    [x for n in names for x in (['io', n, 'read'], ['io', n, 'tell'])] + q
             if t == 'reader-read-tell':
                 return [['close', 'r']] + [x for n in names for x in (['io', n, 'read'], ['io', n, 'tell'])] + q
             if t == 'handles-first':
@@ -388,7 +402,7 @@ class C16(Check):
                     pass
         finally:
             shutil.rmtree(tmp, ignore_errors=True)
-        mops = [['reader', op[1], op[2], 'path' if op[3] in ('path', 'fs') else op[3], op[4]] if op[0] == 'reader' else op for op in ops]
+        mops = [['reader', op[1].replace('-ext', ''), op[2], 'path' if op[3] in ('path', 'fs') else op[3], op[4]] if op[0] == 'reader' else op for op in ops]
         model = drv.ask(sexp(['close-run'] + mops)).split(' ')
         # non-vacuity of the every-level completeness theorem: are its side conditions met by the graph this script builds?
         geom = drv.ask(sexp(['close-geom'] + mops))
